@@ -1518,6 +1518,327 @@ def c10_search(ctx, failing, corr, broken):
     return out
 
 
+# ---------------------------------------------------------------------------------------------------
+# text-facing tool (enumerations, numbers, dimensions)
+# ---------------------------------------------------------------------------------------------------
+
+def textio(ctx, lines):
+    exe = os.path.join(ctx.cache, 'textio')
+    env = dict(os.environ, ASAN_OPTIONS='detect_leaks=0')
+    import subprocess
+    p = subprocess.run([exe], input=''.join(l + '\n' for l in lines), stdout=subprocess.PIPE,
+                       stderr=subprocess.PIPE, text=True, env=env)
+    out = p.stdout.splitlines()
+    return out, p.returncode, p.stderr[-2000:]
+
+
+def hexs(s):
+    b = s.encode('utf-8') if isinstance(s, str) else bytes(s)
+    return b.hex() or '-'
+
+
+# ---------------------------------------------------------------------------------------------------
+# C01 / C07: the real code's numbers against the (Python copy of the) unit-symbol oracle
+# ---------------------------------------------------------------------------------------------------
+
+def c01_search(ctx, failing, corr, broken):
+    """Convert x from every unit to the standard unit and back on the real code; compare with the
+    exact answer A_u/A_std * x (affine for degC/degF in Unit::Temperature) to 16 ulps."""
+    import oracle
+    rng = random.Random(ctx.seed + 1)
+    by_id = ctx.by_id
+    out, reqs, info = [], [], []
+    for u in ctx.tables['units']:
+        short = u['name'].split('::')[1]
+        conv = by_id.get('unit::Convert<%s>(num)' % short)
+        if conv is None:
+            continue
+        ab = {v: a for v, a in u['abbreviations']}
+        std = u['standard']
+        rs = oracle.readings(ab[std], u['dims'])
+        if not rs:
+            out.append({'kind': 'c01-oracle', 'what': 'standard unit %s of %s has no reading with the declared dimensions' % (ab[std], u['name'])})
+            continue
+        As = oracle.value(rs[0])
+        for name, v in u['enumerators']:
+            ru = oracle.readings(ab.get(v, ''), u['dims'])
+            if not ru:
+                out.append({'kind': 'c01-oracle', 'unit': name, 'unit_type': u['name'], 'symbol': ab.get(v),
+                            'what': 'unit symbol %r of %s::%s does not expand to the dimensions the type declares' % (ab.get(v), u['name'], name)})
+                continue
+            A = oracle.value(ru[0]) / As
+            off = None
+            if u['name'] == 'Unit::Temperature' and ab[v] in ('°C', '°F'):
+                off = Fraction(27315, 100) if ab[v] == '°C' else Fraction(45967, 100)
+            for fmt in (32, 64, 80):
+                for _ in range(2 if not broken else 5):
+                    x = co.random_value(rng, fmt, 'moderate')
+                    x = (x[0], x[1] or 1, x[2])
+                    reqs.append((conv['index'], fmt, [co.hex_of(*x)], [v, std]))
+                    info.append((u, name, v, ab[v], fmt, x, A, off, 'to'))
+                    reqs.append((conv['index'], fmt, [co.hex_of(*x)], [std, v]))
+                    info.append((u, name, v, ab[v], fmt, x, A, off, 'from'))
+    res, _, _ = ctx.run_native(reqs)
+    for (u, name, v, sym, fmt, x, A, off, direction), r in zip(info, res):
+        if r is None or r.get('error'):
+            continue
+        c = num_outs(r)[0][1]
+        xv = _val(x)
+        if direction == 'to':
+            want = A * (xv + off) if off is not None else A * xv
+            scale = abs(A * xv) + (abs(A * off) if off is not None else 0)
+        else:
+            want = xv / A - off if off is not None else xv / A
+            scale = abs(xv / A) + (abs(off) if off is not None else 0)
+        if c in ('nan', 'inf', '-inf'):
+            bad = True
+        else:
+            bad = abs(co.frac_of_canon(c) - want) > scale * Fraction(16, 2 ** co.FMT[fmt][0])
+        if bad:
+            out.append({'kind': 'c01-factor', 'unit_type': u['name'], 'unit': name, 'symbol': sym, 'fmt': fmt,
+                        'direction': 'unit -> standard' if direction == 'to' else 'standard -> unit',
+                        'input': co.hex_of(*x), 'native_output': c, 'exact_answer': float(want),
+                        'factor_implied_by_symbol': float(A),
+                        'what': 'Convert(%s, %s) on the real code gives %s; the factor implied by the symbol "%s" gives %r' % (
+                            co.hex_of(*x), ('%s -> standard' % name) if direction == 'to' else ('standard -> %s' % name),
+                            c, sym, float(want))})
+            if len(out) >= 6:
+                break
+    return out
+
+
+def c01_correspond(ctx):
+    sel = [e for e in ctx.model if e['meta']['kind'] in ('static-kernel', 'map-kernel')]
+    return co.correspond(ctx.cache, LEAN, sel, ctx.seed + 1, per_entry=1 if ctx.tier == 'quick' else 20)
+
+
+def c07_search(ctx, failing, corr, broken):
+    import oracle
+    out = []
+    units = {u['name']: u for u in ctx.tables['units']}
+    base = ['Unit::Time', 'Unit::Length', 'Unit::Mass', 'Unit::ElectricCurrent', 'Unit::Temperature', 'Unit::SubstanceAmount']
+    systems = [x[1] for x in [e for e in ctx.tables['enums'] if e['name'] == 'UnitSystem'][0]['enumerators']]
+    sysname = {x[1]: x[0] for x in [e for e in ctx.tables['enums'] if e['name'] == 'UnitSystem'][0]['enumerators']}
+
+    def mag(u, v):
+        ab = {k: a for k, a in u['abbreviations']}
+        r = oracle.readings(ab.get(v, ''), u['dims'])
+        return oracle.value(r[0]) if r else None
+    for u in ctx.tables['units']:
+        cons = {s: v for s, v in u['consistent']}
+        ens = {x[1]: x[0] for x in u['enumerators']}
+        for s in systems:
+            if s not in cons:
+                out.append({'kind': 'c07-missing', 'unit_type': u['name'], 'system': sysname[s],
+                            'what': 'ConsistentUnit<%s>(%s) is missing (std::map::at throws)' % (u['name'], sysname[s])})
+                continue
+            if u['dims'][6] != 0:
+                continue
+            want = Fraction(1)
+            ok = True
+            for bn, ex in zip(base, u['dims'][:6]):
+                bu = units[bn]
+                bc = {a: b for a, b in bu['consistent']}
+                mv = mag(bu, bc.get(s))
+                if mv is None:
+                    ok = False
+                    break
+                want *= mv ** ex if ex >= 0 else 1 / mv ** (-ex)
+            got = mag(u, cons[s])
+            if ok and got is not None and got != want:
+                out.append({'kind': 'c07-incoherent', 'unit_type': u['name'], 'system': sysname[s],
+                            'consistent_unit': ens.get(cons[s]), 'its_SI_magnitude': float(got),
+                            'product_of_base_units': float(want),
+                            'what': 'ConsistentUnit<%s>(%s) = %s has SI magnitude %r, but the product of that system\'s '
+                                    'base units raised to the type\'s dimensions is %r' % (
+                                        u['name'], sysname[s], ens.get(cons[s]), float(got), float(want))})
+        if cons.get(ctx.tables['standard_unit_system']) != u['standard']:
+            out.append({'kind': 'c07-standard', 'unit_type': u['name'],
+                        'what': 'the standard system\'s consistent unit of %s is not its standard unit' % u['name']})
+        rel = {a: b for a, b in u['related']}
+        for name, v in [(x[0], x[1]) for x in u['enumerators']]:
+            owners = [s for s in systems if cons.get(s) == v]
+            if (v in rel and owners != [rel[v]]) or (v not in rel and len(owners) == 1):
+                out.append({'kind': 'c07-related', 'unit_type': u['name'], 'unit': name,
+                            'related_system': sysname.get(rel.get(v)), 'consistent_unit_of': [sysname[s] for s in owners],
+                            'what': 'RelatedUnitSystem(%s::%s) is %s but the unit is the consistent unit of %s' % (
+                                u['name'], name, sysname.get(rel.get(v)), [sysname[s] for s in owners])})
+    return out[:8]
+
+
+def c06_correspond(ctx):
+    """The hand-written Lean model of the Dimensions class (Props/C06.lean: DimModel.print / cmp / hash)
+    against the real class (textio `dims`), on every tuple of a small box and random int8 tuples."""
+    import itertools
+    rng = random.Random(ctx.seed + 6)
+    box = list(itertools.product((-1, 0, 1), repeat=7))
+    tuples = list(box)
+    if ctx.tier != 'quick':
+        tuples += [tuple(rng.randrange(-3, 4) for _ in range(7)) for _ in range(6000)]
+    tuples += [tuple(rng.choice((-128, -127, -2, -1, 0, 0, 1, 2, 3, 127)) for _ in range(7)) for _ in range(400)]
+    pairs = []
+    for a in tuples:
+        b = list(a)
+        k = rng.randrange(0, 8)
+        for i in range(k, 7):
+            b[i] = rng.choice((-2, -1, 0, 1, 2))
+        pairs.append((a, tuple(b)))
+    outl, rc, err = textio(ctx, ['dims %s %s' % (' '.join(map(str, a)), ' '.join(map(str, b))) for a, b in pairs])
+    # the Lean model on the same pairs
+    lit = ', '.join('([%s], [%s])' % (', '.join('(%d)' % x for x in a), ', '.join('(%d)' % x for x in b)) for a, b in pairs)
+    import subprocess
+    pm = subprocess.run(['lake', 'env', 'lean', '--run', 'DimDriver.lean'], cwd=LEAN,
+                        input=''.join('%s %s\n' % (' '.join(map(str, a)), ' '.join(map(str, b))) for a, b in pairs),
+                        stdout=subprocess.PIPE, stderr=subprocess.PIPE, text=True)
+    model = [tuple(l.split('\t')) for l in pm.stdout.splitlines() if l.count('\t') == 3]
+    dis = []
+    ops = {0: '011010', 1: '100011', 2: '010101'}   # == != < > <= >= for lt / eq / gt
+    for (a, b), got, mod in zip(pairs, outl, model):
+        parts = got.split()
+        if len(parts) < 7:
+            dis.append({'id': 'Dimensions', 'fmt': 0, 'detail': 'real code: ' + got, 'native': got, 'lean': mod,
+                        'native_request': str(a), 'lean_request': str(b)})
+            continue
+        real_print = bytes.fromhex(parts[0]).decode('utf-8') if parts[0] != '-' else ''
+        mprint = mod[0]
+        want_ops = ops[int(mod[1])]
+        if real_print != mprint or parts[4] != want_ops or parts[5] != mod[2] or parts[6] != mod[3]:
+            dis.append({'id': 'Dimensions', 'fmt': 0,
+                        'detail': '%s vs %s: real print %r ops %s hashes %s %s; model print %r ops %s hashes %s %s' % (
+                            a, b, real_print, parts[4], parts[5], parts[6], mprint, want_ops, mod[2], mod[3]),
+                        'native': got, 'lean': mod, 'native_request': str(a), 'lean_request': str(b)})
+    crashes = [] if rc == 0 and len(outl) == len(pairs) and len(model) == len(pairs) else [
+        {'returncode': rc, 'stderr': err, 'real_lines': len(outl), 'model_lines': len(model)}]
+    return {'lines': len(pairs), 'slots_exact': 4 * len(pairs), 'slots_libm': 0, 'disagreements': dis,
+            'crashes': crashes, 'exponent_histogram': {'box {-1,0,1}^7 exhaustive': len(box), 'other': len(pairs) - len(box)},
+            'sample_lines': [{'request': 'dims %s %s' % pairs[5], 'native': outl[5] if len(outl) > 5 else None,
+                              'lean': model[5] if len(model) > 5 else None}]}
+
+
+def c06_search(ctx, failing, corr, broken):
+    out = []
+    for d in (corr or {}).get('disagreements', [])[:5]:
+        out.append({'kind': 'c06-dimensions', 'what': 'Dimensions ' + d['detail'], 'tuples': [d['native_request'], d['lean_request']]})
+    if broken and not out:
+        snippet = ('def str (l : List Nat) : String := String.ofList (l.map Char.ofNat)\n'
+                   '#eval unitTypes.flatMap fun u => (u.abbreviations.filter fun a => (magnitudeOf u a.1).isNone).map '
+                   'fun a => (u.name, str a.2, u.dims.toList, (Symbol.expand a.2).map (fun m => m.d.toList))\n'
+                   '#eval (classes.filter (fun c => !checkClassDims unitTypes c)).map (fun c => (c.name, c.dims.map (·.toList)))\n')
+        txt = cl.lean_eval(snippet, ['PhQVerif.Core.UnitCheck', 'PhQVerif.Generated.Tables'])
+        for m in re.finditer(r'\("(Unit::\w+)", "((?:[^"\\]|\\.)*)", (\[[^\]]*\]), (\[.*?\])\)', txt):
+            out.append({'kind': 'c06-unit-dimensions', 'unit_type': m.group(1), 'unit_symbol': m.group(2),
+                        'declared_dimension_set_TLMIΘNJ': m.group(3), 'dimensions_of_the_symbol': m.group(4),
+                        'what': '%s declares the dimension set %s but its unit %s expands to %s' % (
+                            m.group(1), m.group(3), m.group(2), m.group(4))})
+        for m in re.finditer(r'\("(\w+)", (none|some \[[^\]]*\])\)', txt):
+            out.append({'kind': 'c06-class-dimensions', 'class': m.group(1), 'reported': m.group(2),
+                        'what': 'PhQ::%s::Dimensions() is %s, not the set of its unit type' % (m.group(1), m.group(2))})
+    return out
+
+
+def c08_search(ctx, failing, corr, broken):
+    """Ask the Lean oracle which spellings do not denote the magnitude of the enumerator they map to,
+    and confirm each on the real ParseEnumeration / Abbreviation."""
+    out = []
+    snippet = (
+        'def str (l : List Nat) : String := String.ofList (l.map Char.ofNat)\n'
+        '#eval unitTypes.flatMap fun u => (u.spellings.filter fun s => match magnitudeOf u s.2 with '
+        '| none => true | some m => !(Symbol.readings u.dims s.1).any (Symbol.sameMagnitude m)).map fun s => '
+        '(u.name, str s.1, s.2, (Symbol.readings u.dims s.1).map (fun m => (m.num, m.den, m.k)), '
+        '(magnitudeOf u s.2).map (fun m => (m.num, m.den, m.k)))\n')
+    txt = cl.lean_eval(snippet, ['PhQVerif.Core.UnitCheck', 'PhQVerif.Generated.Tables'])
+    rows = re.findall(r'\("(Unit::\w+)", "((?:[^"\\]|\\.)*)", (\d+), (\[[^\]]*\]), (none|some \([^)]*\))\)', txt)
+    tables = {u['name']: u for u in ctx.tables['units']}
+    for (tname, sp, v, reads, want) in rows:
+        sp = bytes(sp, 'utf-8').decode('unicode_escape').encode('latin-1').decode('utf-8') if '\\' in sp else sp
+        lines, rc, err = textio(ctx, ['enum %s %s' % (tname, hexs(sp)), 'abbr %s %s' % (tname, v)])
+        abbr = bytes.fromhex(lines[1].split()[0]).decode('utf-8') if len(lines) > 1 and lines[1].split()[0] != '-' else ''
+        ens = {x[1]: x[0] for x in tables[tname]['enumerators']}
+        out.append({'kind': 'c08-spelling', 'unit_type': tname, 'spelling': sp,
+                    'real_ParseEnumeration': lines[0] if lines else None,
+                    'parses_to': ens.get(int(v)), 'abbreviation_of_that_enumerator': abbr,
+                    'oracle_readings_of_spelling(num,den,pi_power)': reads,
+                    'oracle_magnitude_of_enumerator': want,
+                    'what': 'PhQ::ParseEnumeration<%s>("%s") is %s (%s), but the spelling denotes a different '
+                            'magnitude' % (tname, sp, ens.get(int(v)), abbr)})
+    return out
+
+
+def c08_correspond(ctx):
+    """Real unordered_map::find / Abbreviation / operator<< against the table model: every key, every key
+    with one byte mutated / inserted / deleted, random byte strings."""
+    rng = random.Random(ctx.seed + 8)
+    lines, expect = [], []
+    allenums = ctx.tables['units'] + ctx.tables['enums']
+    nostream = []
+    for u in allenums:
+        sp = {s: v for s, v in u['spellings']}
+        keys = list(sp)
+        cases = list(keys)
+        nm = 2 if ctx.tier == 'quick' else 12
+        for k in keys:
+            b = k.encode('utf-8')
+            for _ in range(nm):
+                r = rng.random()
+                if r < 0.34 and b:
+                    i = rng.randrange(len(b)); m = b[:i] + bytes([rng.randrange(256)]) + b[i + 1:]
+                elif r < 0.67:
+                    i = rng.randrange(len(b) + 1); m = b[:i] + bytes([rng.randrange(1, 256)]) + b[i:]
+                elif b:
+                    i = rng.randrange(len(b)); m = b[:i] + b[i + 1:]
+                else:
+                    m = b'x'
+                cases.append(m)
+        for _ in range(20):
+            cases.append(bytes(rng.randrange(256) for _ in range(rng.randrange(0, 12))))
+        for c in cases:
+            b = c.encode('utf-8') if isinstance(c, str) else c
+            try:
+                key = b.decode('utf-8')
+            except UnicodeDecodeError:
+                key = None
+            lines.append('enum %s %s' % (u['name'], hexs(b)))
+            expect.append(('enum', u['name'], b, sp.get(key) if key is not None else None))
+        ab = {v: a for v, a in u['abbreviations']}
+        for name, v in u['enumerators']:
+            lines.append('abbr %s %d' % (u['name'], v))
+            expect.append(('abbr', u['name'], v, ab.get(v)))
+    outl, rc, err = textio(ctx, lines)
+    dis = []
+    for (kind, tname, x, want), got in zip(expect, outl):
+        if kind == 'enum':
+            w = 'none' if want is None else 'some %d' % want
+            if got != w:
+                dis.append({'id': 'ParseEnumeration<%s>' % tname, 'fmt': 0, 'detail': 'bytes %s: real %s, table model %s' % (
+                    x.hex(), got, w), 'native_request': '', 'lean_request': '', 'native': got, 'lean': w})
+        else:
+            parts = got.split()
+            a = bytes.fromhex(parts[0]).decode('utf-8') if parts and parts[0] != '-' else ''
+            if a != (want or ''):
+                dis.append({'id': 'Abbreviation<%s>' % tname, 'fmt': 0, 'detail': 'enumerator %s: real %r, table %r' % (x, a, want),
+                            'native_request': '', 'lean_request': '', 'native': got, 'lean': want})
+            elif len(parts) > 1 and parts[1] == 'no-operator<<':
+                nostream.append(tname)
+            elif len(parts) > 1 and parts[1] != parts[0]:
+                dis.append({'id': 'operator<<(%s)' % tname, 'fmt': 0, 'detail': 'enumerator %s streams differently from its abbreviation' % x,
+                            'native_request': '', 'lean_request': '', 'native': got, 'lean': want})
+    crashes = [] if rc == 0 and len(outl) == len(lines) else [{'returncode': rc, 'stderr': err}]
+    return {'lines': len(lines), 'slots_exact': len(lines), 'slots_libm': 0, 'disagreements': dis, 'crashes': crashes,
+            'exponent_histogram': {}, 'sample_lines': [{'request': lines[0], 'native': outl[0] if outl else None}],
+            'no_stream_operator': sorted(set(nostream))}
+
+
+def c08_extra(ctx):
+    """The one part of C08's statement the tree does not provide at all."""
+    lines, rc, err = textio(ctx, ['abbr ConstitutiveModel::Type 0'])
+    v = []
+    if lines and lines[0].endswith('no-operator<<'):
+        v.append({'kind': 'c08-no-stream-operator', 'enum': 'ConstitutiveModel::Type',
+                  'what': 'ConstitutiveModel::Type has no operator<<: its enumerators cannot be streamed at all',
+                  'failing_input_found': True})
+    return {'violations': v}
+
+
 def quantity_corr(pred, seed_off, per_quick=2, per_thorough=30):
     def f(ctx):
         sel = [e for e in ctx.model if not e['meta']['cls'].startswith(('unit:', 'model:')) and pred(e)]
@@ -1527,6 +1848,53 @@ def quantity_corr(pred, seed_off, per_quick=2, per_thorough=30):
 
 
 SPECS = {
+    'C01': {
+        'id': 'C01', 'level': 'proof',
+        'lean_targets': ['PhQVerif.Audit.C01'],
+        'checkers': [],
+        'correspond': c01_correspond,
+        'search': c01_search,
+        'always_search': True,
+        'assumptions': ['the unit-symbol oracle (364 atoms, SI/NIST definitional constants) is the reference',
+                        'cap 4*2^-p on each kernel constant is proved; the end-to-end few-ulp bound combines it with one '
+                        'rounding per kernel application (Theory/Round.lean) and C02; the search checks 16 ulps end to end '
+                        'on the real code',
+                        'affine units: bound relative to |a x| + |b| (DESIGN.md section 7, C01)'],
+    },
+    'C07': {
+        'id': 'C07', 'level': 'proof',
+        'lean_targets': ['PhQVerif.Audit.C07'],
+        'checkers': [],
+        'search': c07_search,
+        'always_search': True,
+        'assumptions': ['magnitudes are those of the unit-symbol oracle; agreement of the code\'s constants with it is C01',
+                        'types with a luminous-intensity exponent are exempt from the coherence clause (no candela unit type)',
+                        'tables are the library\'s real objects dumped by iteration; no arithmetic is involved, so no '
+                        'separate correspondence run'],
+    },
+    'C06': {
+        'id': 'C06', 'level': 'proof',
+        'lean_targets': ['PhQVerif.Audit.C06'],
+        'checkers': [],
+        'correspond': c06_correspond,
+        'search': c06_search,
+        'assumptions': ['(a),(b): table theorems over regenerated tables + the unit-symbol oracle',
+                        '(c): theorems about the hand-written model DimModel of the non-template Dimensions class, tied '
+                        'to the code by the correspondence (Print, six comparisons, hash); JSON/XML/YAML of Dimensions '
+                        'are not modelled'],
+    },
+    'C08': {
+        'id': 'C08', 'level': 'proof',
+        'lean_targets': ['PhQVerif.Audit.C08'],
+        'checkers': [],
+        'correspond': c08_correspond,
+        'search': c08_search,
+        'extra': c08_extra,
+        'assumptions': ['"what a spelling denotes" is the hand-written unit-symbol oracle (Core/Symbol.lean grammar, '
+                        'Core/Atoms.lean: 364 atoms with SI/NIST definitional constants)',
+                        'std::unordered_map::find behaves as association-list lookup (checked on all keys, mutated '
+                        'keys and random byte strings by the correspondence)'],
+    },
     'C10': {
         'id': 'C10', 'level': 'proof',
         'lean_targets': ['PhQVerif.Audit.C10'],
